@@ -64,6 +64,34 @@ class SymFloatType(metaclass=_FloatMeta):
     pass
 
 
+class _StrMeta(type):
+    def __call__(cls, x="", *a, **k):
+        from .symstr import SCat, SStr
+        if isinstance(x, (SStr, SCat)):
+            return x
+        return str(x, *a, **k)
+
+    def __instancecheck__(cls, inst):
+        from .symstr import SCat, SStr
+        return isinstance(inst, (str, SStr, SCat))
+
+    def __subclasscheck__(cls, sub):
+        return issubclass(sub, str)
+
+    def __eq__(cls, o):
+        return o is cls or o is str
+
+    def __hash__(cls):
+        return hash(str)
+
+    def __getattr__(cls, name):
+        return getattr(str, name)
+
+
+class SymStrType(metaclass=_StrMeta):
+    pass
+
+
 def _sym_isinstance(obj, types_):
     return isinstance(obj, types_)
 
@@ -80,6 +108,7 @@ class Loader:
         self._builtins["__import__"] = self._import
         self._builtins["int"] = SymIntType
         self._builtins["float"] = SymFloatType
+        self._builtins["str"] = SymStrType
         self._builtins["abs"] = lambda x: x.__abs__() if hasattr(x, "__abs__") else abs(x)
 
     # -- import machinery ---------------------------------------------------------------
@@ -104,6 +133,9 @@ class Loader:
             return self.load("ioos_qc")
         if top == "numba":
             raise ImportError("numba is not part of the model")
+        if name == "re":
+            from . import symstr
+            return symstr
         if name in self.extra_models:
             return self.extra_models[name]
         if top in self.models:
